@@ -57,6 +57,9 @@ def proposal_filter(cx):
             if l[0] == "is" and l[1][0] == "call" and l[1][1].endswith("is_empty") and contains(fld("ConfChangeV2.changes"), l[1]):
                 return l[2] is want
             return False
+        # ... and that test must be made for EACH entry: keeping one entry raises pending_conf_index, so a test made
+        # once before the loop is stale for the second conf change of the same message (kill analysis on)
+        require(cx, s, key + ":fresh", "the no-pending test is evaluated after the previous kept entry was recorded (per entry, not once per message)", no_pending, kill=True)
         require_all(cx, s, key, "a conf-change proposal is kept only if none is pending, and it enters a joint config only from a simple one / leaves only a joint one",
                     [("!has_pending_conf()", no_pending),
                      ("!(already joint && !leave)", lambda l: is_joint(l, False) or is_leave(l, True)),
